@@ -398,4 +398,49 @@ example :
     decide +kernel
   · decide +kernel
 
+/-! ### round 5: the guards of `_terminate_file` as regenerated kernels -/
+
+/-- tie G (round 5): the guards of `_terminate_file` the model evaluates are the Bool kernels translated from the
+source: close iff a file is open, prepare the new path iff rotating, compress/retain iff `is_rotating or
+self._rotation_function is None`, retain iff a retention function exists, re-create iff rotating -/
+theorem generated_terminate_guards :
+    (∀ f, Gen.termCloseTest f = f) ∧ (∀ r, Gen.termPrepTest r = r) ∧
+    (∀ r h, Gen.termFinishTest r h = (r || !h)) ∧ (∀ h, Gen.termRetainTest h = h) ∧
+    (∀ r, Gen.termRecreateTest r = r) :=
+  ⟨fun _ => rfl, fun _ => rfl, fun _ _ => rfl, fun _ => rfl, fun _ => rfl⟩
+
+/-- **retention_only_at_rotation_or_final_stop**: stopping a sink that has a rotation function leaves the directory
+exactly as it is – no compression, no retention, no rename, no new file – under every fault vector (through the
+generated guards: `_terminate_file(is_rotating=False)` with a rotation function only closes the file). -/
+theorem retention_only_at_rotation_or_final_stop (cfg : Cfg) (o : Orc) (hr : cfg.hasRot = true) (w : W) :
+    (terminate cfg o false w).2.fs = w.fs := by
+  have hterm : terminate cfg o false = (do let w ← getW; whenM w.cur.isSome closeFile) := by
+    funext w
+    simp only [terminate, rotatePrep, whenM, hr, bind_apply, getW_apply, Bool.false_eq_true, ↓reduceIte,
+      Bool.not_true, Bool.or_self, pure_apply, Gen.termCloseTest, Gen.termPrepTest, Gen.termFinishTest,
+      Gen.termRecreateTest]
+    split
+    · rename_i h; exact h.symm
+    · rename_i h; exact h.symm
+  rw [hterm]
+  have ht : Triple (fun x => x.fs = w.fs) (do let w ← getW; whenM w.cur.isSome closeFile)
+      (fun _ x => x.fs = w.fs) (fun x => x.fs = w.fs) :=
+    Triple.bindGet (fun w0 => Triple.pre (Triple.whenM (fun _ => closeFile_fs w.fs)) (fun _ h => h.2))
+  exact Triple.snd ht w rfl
+
+example :
+    let o : Orc := { rot := false, clk := 0, ct1 := 5, ct2 := 6, ret := [.del (.base 0)] }
+    let cfg : Cfg := { hasRot := true, comp := some (.fmt .copy), hasRet := true, watch := false, nglob := 4 }
+    let w := run cfg [Op.write o] (start [] [] 0)
+    (terminate cfg o false w).2.fs = [(.base 0, .file [0])] ∧ (terminate cfg o false w).2.cur = none := by
+  decide +kernel
+
+/-- tie G (round 5, seed C08-p): the catch mechanism through which every failed file operation is reported is PER
+CALL – no method of `ErrorInterceptor` but `__init__` assigns an attribute of `self` (no state survives a report,
+nothing is shared between two threads reporting at once) and the only early return of `print` is the `sys.stderr`
+guard.  "Every message without a report is readable" (`no_message_lost`, whose `written` are the calls that did not
+raise inside the sink) reaches the user only through this reporter; the two-thread stream of harness/c08.py
+(`report_race`) judges it on the implementation. -/
+theorem generated_shape_reporter : Gen.reporterStateless = true ∧ Gen.reporterEarlyReturns = 1 := by decide
+
 end C08
